@@ -54,7 +54,7 @@ fn main() {
         "C10" => c10::run(&mut sink, thorough, seed),
         "C12" => c12::run(&mut sink, thorough, seed),
         "C13" => c13::run(&mut sink, thorough, seed),
-        "C05" => c05::run(&mut sink, thorough, seed),
+        "C05" => { c05::run(&mut sink, thorough, seed); c01::run(&mut sink, prop, thorough, seed); }
         "C03" => c03::run(&mut sink, thorough, seed),
         "C17" => c17::run(&mut sink, thorough, seed),
         "C08" => c08::run(&mut sink, thorough, seed),
